@@ -13,7 +13,8 @@ CODE_FIXDEAD = True     # stabilize falls back to the nearest live finger / pred
 
 # quick tier: each ring property replays the coverage-goal witnesses closest to it (thorough: every property replays all of them)
 _DATA = ["join-granted-with-keys", "leave-transfer-with-keys", "leave2-selffirst-refused-not-predecessor-with-keys-stale-read",
-         "leave1-succfirst-refused-not-predecessor-with-keys-stale-read", "join-refused-pred-unsettled"]
+         "leave1-succfirst-refused-not-predecessor-with-keys-stale-read", "join-refused-pred-unsettled",
+         "leave-own-successor-with-predecessor-with-keys"]
 QUICK_GOALS = {
     "C03": _DATA,
     "C04": ["join-granted-with-keys", "leave-transfer-with-keys", "leave1-succfirst-refused-not-predecessor-with-keys-stale-read"],
@@ -71,6 +72,8 @@ def engine(ck, pid, kinds, n_quick=40, n_thorough=400, gen_kw=None, mc=True):
             kw.update(n_nodes=6, n_init=3, n_join=2, n_leave=1)
         elif i % 4 == 2:
             kw.update(n_nodes=5, n_init=4, n_join=1, n_leave=2)
+        elif i % 8 == 3:      # the smallest rings: one or two members, joins into them racing a leave of a member
+            kw.update(n_nodes=3 + i % 2, n_init=1 + (i // 8) % 2, n_join=2, n_leave=1)
         scenarios.append(ringlib.Gen(ck.rng, **kw).make("rnd-%d-%d" % (ck.seed, i)))
     for lo in range(0, len(scenarios), 60):
         _judge(ck, pid, kinds, binary, scenarios[lo:lo + 60], "random", base=lo)
